@@ -57,7 +57,7 @@ def py_expr(n) -> Any:
     return ("unknown", type(n).__name__)
 
 
-def py_block(stmts) -> List[Any]:
+def _py_block(stmts) -> List[Any]:
     out = []
     for s in stmts:
         if isinstance(s, ast.Assign) and len(s.targets) == 1:
@@ -79,15 +79,20 @@ def py_block(stmts) -> List[Any]:
             v = ("bin", OPS.get(type(s.op), "?"), t, py_expr(s.value))
             out.append(("decl", s.target.id, v, "") if isinstance(s.target, ast.Name) else ("assign", t, v))
         elif isinstance(s, ast.If):
-            out.append(("if", py_expr(s.test), py_block(s.body), py_block(s.orelse), None))
+            out.append(("if", py_expr(s.test), _py_block(s.body), _py_block(s.orelse), None))
         elif isinstance(s, ast.For):
             it = s.iter
             if isinstance(it, ast.Call) and isinstance(it.func, ast.Name) and it.func.id == "range" and len(it.args) == 1:
-                out.append(("for_range", py_expr(s.target), py_expr(it.args[0]), py_block(s.body)))
+                out.append(("for_range", py_expr(s.target), py_expr(it.args[0]), _py_block(s.body)))
+            elif isinstance(it, ast.Call) and isinstance(it.func, ast.Name) and it.func.id == "range" and len(it.args) == 2 and isinstance(s.target, ast.Name) \
+                    and not it.keywords:
+                # range(a, b): the C-style counter loop (its start is judged by the step executor)
+                tg = s.target.id
+                out.append(("for", [("decl", tg, py_expr(it.args[0]), "")], ("bin", "<", ("ref", tg), py_expr(it.args[1])), ("un", "++", ("ref", tg)), _py_block(s.body)))
             else:
-                out.append(("rangefor", py_expr(s.target), py_expr(it), py_block(s.body)))
+                out.append(("rangefor", py_expr(s.target), py_expr(it), _py_block(s.body)))
         elif isinstance(s, ast.While):
-            out.append(("while", py_expr(s.test), py_block(s.body)))
+            out.append(("while", py_expr(s.test), _py_block(s.body)))
         elif isinstance(s, ast.Return):
             out.append(("return", py_expr(s.value) if s.value is not None else None))
         elif isinstance(s, ast.Raise):
@@ -100,13 +105,21 @@ def py_block(stmts) -> List[Any]:
             out.append(("expr", py_expr(s.value)))
         elif isinstance(s, ast.Pass):
             continue
+        elif isinstance(s, ast.Continue):
+            out.append(("continue",))
+        elif isinstance(s, ast.Break):
+            out.append(("break",))
         elif isinstance(s, (ast.Try,)):
-            out.extend(py_block(s.body))
+            out.extend(_py_block(s.body))
         elif isinstance(s, ast.With):
-            out.extend(py_block(s.body))
+            out.extend(_py_block(s.body))
         else:
             out.append(("unknown_stmt", type(s).__name__))
     return out
+
+
+def py_block(stmts) -> List[Any]:
+    return structure_continue(_py_block(stmts))
 
 
 # ------------------------------------------------------------------------------------------ symbolic numbers
@@ -261,6 +274,12 @@ class StepExec:
             return opaque("div", l, r)
         if k == "call":
             f = e[1] if isinstance(e[1], str) else None
+            if f == "narrow_float" and len(e[2]) == 1:
+                msg = (f"the time arithmetic `{cppast.show(e[2][0])[:60]}` is narrowed to single precision: beyond about 2^24 steps' worth of time the step "
+                       f"count and remainder are computed from a rounded span, so steps overshoot the target or exceed the configured maximum")
+                if msg not in self.plan.violations:
+                    self.plan.violations.append(msg)
+                return self.num(e[2][0])
             if f in ("abs", "fabs", "floor", "int", "size_t") and len(e[2]) == 1:
                 v = self.num(e[2][0])
                 if v is None:
@@ -271,6 +290,8 @@ class StepExec:
                 return opaque(f, v)
             if isinstance(e[1], tuple) and e[1][0] == "lambda":
                 return self.call_lambda(e[1], e[2])
+        if k == "mcall" and e[2] in ("float32", "float16", "single", "half") and len(e[3]) == 1:
+            return self.num(("call", "narrow_float", [e[3][0]]))
         if k == "mcall" and e[2] in ("abs", "floor") and not e[3]:
             v = self.num(e[1])
             return opaque(e[2], v) if v is not None else None
@@ -532,14 +553,57 @@ class StepExec:
         if k == "for":
             _, init, cond, inc, body = s
             bound = None
+            cvar, c0 = None, None
             for d in init:
                 if d[0] == "decl":
                     self.env[d[1]] = ("loopvar",)
+                    cvar, c0 = d[1], d[2]
             if cond is not None and cond[0] == "bin" and cond[1] in ("<", "!=", "<="):
                 bound = self.num(self.resolve(cond[3]))
                 if cond[1] == "<=":
                     self.plan.violations.append("the k-loop runs while count <= bound: one step more than floor(|target - held| / max) is taken, "
                                                 "overshooting the target")
+            # the counter: starts at 0, advances by exactly one, is the left operand of the loop test and is not touched by the body
+            if cvar is None or len([d for d in init if d[0] == "decl"]) != 1:
+                self.plan.problems.append(f"k-loop `{cppast.show(cond) if cond else '?'}`: the counter declaration is not recognised")
+            else:
+                start = c0
+                while isinstance(start, tuple) and start and start[0] in ("cast", "init") and len(start) >= 3 and start[2]:
+                    start = start[2][0] if isinstance(start[2], list) else start[2]
+                if not (isinstance(start, tuple) and start[0] == "num"):
+                    self.plan.problems.append(f"k-loop counter `{cvar}` starts at `{cppast.show(c0) if c0 else '?'}`, not a literal")
+                else:
+                    try:
+                        sv = float(str(start[1]).rstrip("uUlL"))
+                    except ValueError:
+                        sv = None
+                    if sv is None:
+                        self.plan.problems.append(f"k-loop counter `{cvar}` starts at `{start[1]}`")
+                    elif sv != 0:
+                        self.plan.violations.append(f"the k-loop counter `{cvar}` starts at {start[1]}, not 0: the loop takes {start[1]} step(s) "
+                                                    f"fewer than floor(|target - held| / max); the remainder step then exceeds the configured maximum")
+                if not (cond is not None and cond[0] == "bin" and cond[2] == ("ref", cvar)):
+                    self.plan.problems.append(f"k-loop test `{cppast.show(cond) if cond else '?'}` does not compare the counter `{cvar}` (left) with the bound")
+                ok_inc = inc in (("un", "++", ("ref", cvar)), ("un", "post++", ("ref", cvar)), ("bin", "+=", ("ref", cvar), ("num", "1")))
+                if not ok_inc:
+                    txt = cppast.show(inc) if inc else "?"
+                    if inc is not None and inc[0] == "bin" and inc[1] == "+=" and inc[2] == ("ref", cvar) and inc[3][0] == "num":
+                        self.plan.violations.append(f"the k-loop counter advances by `{txt}`: only every {inc[3][1]}-th full step is taken")
+                    else:
+                        self.plan.problems.append(f"k-loop increment `{txt}` is not ++{cvar}")
+                def writes_counter(b):
+                    for x in b:
+                        if x[0] in ("assign",) and x[1] == ("ref", cvar):
+                            return True
+                        if x[0] == "expr" and isinstance(x[1], tuple) and x[1][0] in ("un", "bin") and ("ref", cvar) in x[1][2:3] and x[1][1] in ("++", "--", "post++", "post--", "+=", "-=", "="):
+                            return True
+                        if x[0] == "if" and (writes_counter(x[2]) or writes_counter(x[3])):
+                            return True
+                        if x[0] == "block" and writes_counter(x[1]):
+                            return True
+                    return False
+                if writes_counter(body):
+                    self.plan.problems.append(f"the k-loop body changes its own counter `{cvar}`")
             self.run_loop(bound, cppast.show(cond) if cond else "?", body)
             return
         if k == "for_range":
@@ -674,18 +738,18 @@ def cpp_runtime_ir(ctx: core.Ctx):
             entry = out.setdefault(val, {"processUpdate": [], "tick": [], "fields": fields, "helpers": {}})
             for m in cppast.kids(spec):
                 if m.get("kind") == "CXXMethodDecl" and m.get("name") in ("processUpdate", "tick"):
-                    body = cppast.body_of(m)
+                    body = structure_continue(cppast.body_of(m))
                     if body is not None:
                         entry[m["name"]].append((cppast.params_of(m), body, m.get("loc", {}).get("line")))
                 elif m.get("kind") == "CXXMethodDecl" and m.get("name") and not m["name"].startswith("operator"):
-                    body = cppast.body_of(m)
+                    body = structure_continue(cppast.body_of(m))
                     if body is not None:
                         entry["helpers"].setdefault(m["name"], []).append((cppast.params_of(m), body))
                 elif m.get("kind") == "FunctionTemplateDecl" and m.get("name") not in ("ManagedFilter",):
                     # member function templates: the instantiated specialisations (concrete parameter lists)
                     for inst in cppast.kids(m):
                         if inst.get("kind") == "CXXMethodDecl":
-                            body = cppast.body_of(inst)
+                            body = structure_continue(cppast.body_of(inst))
                             if body is not None:
                                 entry["helpers"].setdefault(inst["name"], []).append((cppast.params_of(inst), body))
                 if m.get("kind") == "CXXRecordDecl" and m.get("name") == "State":
@@ -802,6 +866,40 @@ def inline_ir(body, helpers, keep=("tick", "processUpdate"), depth=0, problems=N
             out.append(x[:-1] + (inline_ir(x[-1], helpers, keep, depth, problems),))
         else:
             out.append(x)
+    return out
+
+
+def structure_continue(body, in_loop=False, top=False):
+    """`if c: ...; continue` followed by the rest of a loop body == `if c: ... else: <the rest>` (exact).  A trailing `continue` is dropped.  A
+    `continue` in any other position (or a `break`) stays and is reported by the executors as a statement they do not understand."""
+    if body is None:
+        return None
+    out = []
+    i = 0
+    body = list(body)
+    while i < len(body):
+        x = body[i]
+        k = x[0]
+        if k == "if":
+            then, els = structure_continue(x[2], in_loop), structure_continue(x[3], in_loop)
+            if in_loop and then and then[-1] == ("continue",) and not els:
+                rest = structure_continue(body[i + 1:], in_loop, top)
+                out.append(("if", x[1], then[:-1], rest, x[4]))
+                return out
+            if in_loop and els and els[-1] == ("continue",) and not (then and then[-1] == ("continue",)):
+                rest = structure_continue(body[i + 1:], in_loop, top)
+                out.append(("if", x[1], then + rest, els[:-1], x[4]))
+                return out
+            out.append(("if", x[1], then, els, x[4]))
+        elif k in ("rangefor", "for_range", "while", "for"):
+            out.append(x[:-1] + (structure_continue(x[-1], True, True),))
+        elif k == "block":
+            out.append(("block", structure_continue(x[1], in_loop)))
+        elif k == "continue" and in_loop and top and i == len(body) - 1:
+            pass
+        else:
+            out.append(x)
+        i += 1
     return out
 
 
